@@ -149,11 +149,8 @@ class HistogramCollection(Container[Histogram1D], ObjectWithBinning):
     def sum(self) -> Histogram1D:
         """Return the sum of all contained histograms."""
         if not self.histograms:
-            return Histogram1D(
-                data=np.zeros((self.binning.bin_count)),
-                dtype=np.int64,
-                binning=self.binning.copy(),
-            )
+            # (All bins empty; a `data` argument would end up among the meta data)
+            return Histogram1D(binning=self.binning.copy(), dtype=np.int64)
         return cast(Histogram1D, sum(self.histograms))
 
     @property
